@@ -27,13 +27,13 @@ ASSUMPTIONS = ["observable statistics are compared with System.statistics evalua
 
 @st.composite
 def runs(draw, tier):
-    t = draw(st.sampled_from(["positive", "positive", "complex", "density"]))
+    t = draw(st.sampled_from(["positive", "complex", "density"]))
     c = {"type": t, "se": draw(st.integers(0, 3)), "E": draw(st.integers(0, 8)), "seed": draw(st.integers(0, 2 ** 31 - 1)),
          "stop_at": draw(st.one_of(st.none(), st.integers(0, 8))),
          "metric_periods": draw(st.lists(st.integers(1, 4), min_size=0, max_size=2)),
          "obs_period": draw(st.one_of(st.none(), st.integers(1, 4))),
-         "saver": draw(st.one_of(st.none(), st.fixed_dictionaries({"period": st.integers(1, 4), "initial": st.booleans(),
-                                                                  "metadata": st.sampled_from(["none", "dict", "callable"]), "only": st.booleans()}))),
+         "saver": draw(st.one_of(st.none(), st.fixed_dictionaries({"period": st.sampled_from([1, 1, 2, 3, 4]), "initial": st.sampled_from([True, True, False]),
+                                                                  "metadata": st.sampled_from(["none", "dict", "dict", "callable"]), "only": st.sampled_from([False, False, True])}))),
          "logger": draw(st.one_of(st.none(), st.fixed_dictionaries({"period": st.integers(1, 4), "custom": st.booleans()}))),
          "second_run": draw(st.booleans()), "log": draw(st.booleans()), "stop_in_batch": draw(st.booleans()),
          "inspect_after_clear": draw(st.booleans()), "second_len": draw(st.sampled_from(["same", "fixed3"]))}
@@ -263,4 +263,4 @@ def check(c):
     return {"nontrivial": nt, "labels": labels + (["cut_short"] if cut else []) + (["empty_range"] if not ran else []) + [f"ncallbacks={len(periods)}"]}
 
 
-SUBCHECKS = [Sub("schedule_and_records", check, strategy=lambda tier: runs(tier), quick=400, thorough=6000, per_shard=10)]
+SUBCHECKS = [Sub("schedule_and_records", check, strategy=lambda tier: runs(tier), quick=480, thorough=8000, per_shard=10)]
